@@ -521,10 +521,55 @@ func c01Value(c *Ctx, a *sketchAnchors) {
 		}
 		n++
 		ps, _ := execNoInline(c, f, nil, 1)
-		ok := len(ps) == 1
+		ok := len(ps) >= 1
 		found := ""
-		if ok {
-			r := ps[0].RetT[0]
+		// a field that every store in the package fills with 1 + RelativeAccuracy() of the object it belongs to
+		// (a precomputed factor of an immutable mapping) stands for that expression
+		cachedFactor := func(t *Term) bool {
+			t = t.unver()
+			if t.Op != "field" || !t.Args[0].isParam(0) {
+				return false
+			}
+			nStores, good := 0, true
+			for _, g := range c.P.Funcs {
+				if g.Pkg == nil || g.Pkg != f.Pkg {
+					continue
+				}
+				tcg := newTermCtx(c.P)
+				tcg.inline = false
+				for _, b := range g.Blocks {
+					for _, in := range b.Instrs {
+						st, isSt := in.(*ssa.Store)
+						if !isSt {
+							continue
+						}
+						fa, isFA := st.Addr.(*ssa.FieldAddr)
+						if !isFA || fieldName(fa.X.Type(), fa.Field) != t.Sym || recvNamed(f) == nil || !types.Identical(derefType(fa.X.Type()), recvNamed(f)) {
+							continue
+						}
+						nStores++
+						v := tcg.Of(st.Val)
+						okV := false
+						if v.isBin("+") {
+							for i := 0; i < 2; i++ {
+								if v.Args[i].isConst("1") && isMethodCall(v.Args[1-i], "RelativeAccuracy") && sameVal(v.Args[1-i].Args[0], tcg.Of(fa.X)) {
+									okV = true
+								}
+							}
+						}
+						if !okV {
+							good = false
+						}
+					}
+				}
+			}
+			return good && nStores > 0
+		}
+		for _, p := range ps {
+			if !ok {
+				break
+			}
+			r := p.RetT[0]
 			found = r.Key()
 			ok = r.isBin("*")
 			if ok {
@@ -543,7 +588,7 @@ func c01Value(c *Ctx, a *sketchAnchors) {
 					return false
 				}
 				x, y := r.Args[0], r.Args[1]
-				ok = isLB(x) && isOnePlusAlpha(y) || isLB(y) && isOnePlusAlpha(x)
+				ok = isLB(x) && (isOnePlusAlpha(y) || cachedFactor(y)) || isLB(y) && (isOnePlusAlpha(x) || cachedFactor(x))
 			}
 		}
 		c.R.check(ok, rule, t.Obj().Name()+".Value", funcName(f), c.fpos(f), "Value(i) = LowerBound(i)·(1 + RelativeAccuracy()) — the alpha-midpoint of the bin", found)
